@@ -341,6 +341,8 @@ def diagnose_named(f, args, pos, named, raw):
 
 
 def matches_expectation(exp, got):
+    if isinstance(exp, ref.Unspec):
+        return not any(ref.identical(v, got) for v in exp.never)
     if isinstance(exp, ref.Exact):
         return ref.identical(exp.v, got)
     if isinstance(exp, ref.Bag):
@@ -363,6 +365,8 @@ def matches_expectation(exp, got):
 
 
 def describe(exp):
+    if isinstance(exp, ref.Unspec):
+        return "no single value (%s), but never %s" % (exp.reason, " / ".join(show(v) for v in exp.never))
     if isinstance(exp, ref.Exact):
         return show(exp.v)
     if isinstance(exp, ref.Bag):
@@ -888,7 +892,10 @@ def gen_aggregate(f, item, alien):
         if items and item is g_agg_num and src.bool(0.08):
             for _ in range(src.int(1, 3)):
                 items[src.int(0, len(items) - 1)] = N(src.choice(AGG_EXTREME))
-        if src.bool(0.25) and items:
+        if src.bool(0.08) and len(items) >= 2:
+            k = src.int(0, len(items) - 1)
+            args = [{"l": items[:k]}] + items[k:]     # a list AND further arguments: neither of the two forms
+        elif src.bool(0.25) and items:
             args = items              # c1, .., cN form
         elif src.bool(0.04):
             args = [items[0]] if items else [None]
